@@ -33,6 +33,7 @@ func init() {
 		if len(cs)%2 == 1 {
 			unsupported("common.FromHex of a symbolic string of odd length")
 		}
+		bad := false
 		nib := func(v value) *Term {
 			switch c := v.(type) {
 			case uint8:
@@ -48,6 +49,19 @@ func init() {
 				if t, ok := i.hexNibs()[c]; ok {
 					return t
 				}
+				// an arbitrary symbolic character: decode it as a digit or a lower/upper
+				// case letter; one fork on "is a hex character at all"
+				ts := i.ts
+				in := func(lo, hi byte) *Term {
+					return ts.And(ts.Not(ts.BvCmp(OBvULT, c, ts.BVConst(uint64(lo), 8))), ts.Not(ts.BvCmp(OBvULT, ts.BVConst(uint64(hi), 8), c)))
+				}
+				dig, low, up := in('0', '9'), in('a', 'f'), in('A', 'F')
+				if !i.truth(i.normBool(ts.Or(dig, low, up))) {
+					bad = true
+					return ts.BVConst(0, 4)
+				}
+				sub := func(k byte) *Term { return ts.Extract(ts.BvBin(OBvSub, c, ts.BVConst(uint64(k), 8)), 3, 0) }
+				return ts.Ite(dig, sub('0'), ts.Ite(low, sub('a'-10), sub('A'-10)))
 			}
 			unsupported("common.FromHex of a symbolic string that is not the output of ToHex")
 			return nil
@@ -55,6 +69,9 @@ func init() {
 		out := make([]value, len(cs)/2)
 		for k := range out {
 			out[k] = i.norm(i.ts.Concat(nib(cs[2*k]), nib(cs[2*k+1])), types.Typ[types.Uint8])
+		}
+		if bad {
+			return tuple{[]value(nil), i.mkError("encoding/hex: invalid byte")}
 		}
 		return tuple{out, iface{}}
 	}
